@@ -235,7 +235,18 @@ class DocBuilder:
             # two identified memberships under one identifier are merged by unified() through the library's multi-value
             # "collection" exception of add_attributes: the merged record has several values per formal argument and which one
             # is "the" endpoint is decided by the iteration order of a Python set. No property defines that case; it is avoided
-            ident = self.fresh_name(c)
+            used = {r_.identifier.uri for r_ in w.conts[c].records if r_.identifier is not None}
+            for _try in range(20):
+                ident = self.fresh_name(c)
+                if isinstance(ident, QualifiedName):
+                    u_ = ident.uri
+                else:
+                    q_ = w.conts[c].valid_qualified_name(ident)      # strings are resolved without side effects
+                    u_ = q_.uri if q_ is not None else None
+                if u_ is not None and u_ not in used:
+                    break
+            else:
+                ident = None
         if elem and g.chance(self.o["malformed"] / 2):
             ident = g.choice([None, "nope:x"])
         args = self.formal_args(c, kind)
